@@ -1511,6 +1511,8 @@ ASSUMED_MODELS = ["dataclasses.is_dataclass / fields (instance: declared fields 
                   "is VERIFIED against them since round 7; its content is still cross-checked natively against the AST-derived registry on every run)",
                   "argparse: an option declared with action='store_true' yields a bool attribute (False unless given) named by dest, else by the first "
                   "long option string with '-' -> '_' (cli._build_parser is VERIFIED against this since round 7)",
+                  "str.strip() without arguments is idempotent: strip(strip(x)) == strip(x) (the only library fact behind the verified __post_init__ "
+                  "idempotence contracts; validated natively by scope post-init-idempotent)",
                   "pathlib (as in pack C04): Path(str | Path) total; name / suffix are str; parent a Path; exists() / resolve() may raise OSError / "
                   "RuntimeError; str(path) is a str (populate_from_path is VERIFIED against this since round 7)",
                   "xlrd.sheet.Cell: ctype in 0..6 and the value kind per ctype; xlrd.xldate_as_tuple returns six ints or raises",
